@@ -244,6 +244,38 @@ class AsciiMap:
 
         self._updateSlotSizeFromData()
         self._makeOffsets()
+        self._checkTextReadsBackToData()
+
+    def _checkTextReadsBackToData(self):
+        """
+        Refuse a drawing that does not read back to the data it was made from.
+
+        The dimensions derived from pure data do not fit every arrangement (e.g. negative
+        indices in a Cartesian map, or unevenly trimmed corners of a hex map). Rather than
+        handing out text that silently loses or shifts positions, let the caller know.
+        """
+        readBack = self.__class__()
+        readBack.readAscii(str(self))
+        found = {
+            ij: label
+            for ij, label in readBack.asciiLabelByIndices.items()
+            if label != PLACEHOLDER
+        }
+        expected = {
+            ij: str(label).replace(" ", "")
+            for ij, label in self.asciiLabelByIndices.items()
+            if label != PLACEHOLDER
+        }
+        if found != expected:
+            different = sorted(
+                ij
+                for ij in set(found) | set(expected)
+                if found.get(ij) != expected.get(ij)
+            )
+            raise ValueError(
+                "Cannot draw an ascii map that reads back to the given data; "
+                f"positions that would differ: {different}"
+            )
 
     @staticmethod
     def _removeTrailingPlaceholders(line):
